@@ -1,9 +1,9 @@
 /-
   Lemmas.ExpandHello — one concrete run of `Model.Expand.expandFile` evaluated
-  by the kernel (non-vacuity witness for Props.C05.File / Props.C06.File):
-  the 41-byte file `bzip2 -9` makes of "hello".  Heavy (`decide +kernel`
-  runs sniff, parser automaton, retriever, inverse BWT, emitter and the CRC
-  tests, ≈ 1 minute), hence alone in its module.
+  by the kernel (non-vacuity witness for Props.C05.File): the 37-byte file
+  `bzip2 -9` makes of "a".  `decide +kernel` runs sniff, parser automaton,
+  retriever, inverse BWT, emitter and the CRC tests (≈ 10 s; the 41-byte file of
+  "hello" takes a minute), hence alone in its module.
 -/
 import LbzVerif.Model.Expand
 import LbzVerif.Lemmas.SpecBasic
@@ -11,8 +11,13 @@ import LbzVerif.Lemmas.SpecBasic
 namespace LbzVerif.Lemmas.ExpandHello
 open LbzVerif
 
-theorem expandFile_hello :
-    Model.Expand.expandFile Spec.Bzip2.helloBz2 = .ok [104, 101, 108, 108, 111] := by
+/-- `printf a | bzip2 -9` -/
+def aBz2 : List UInt8 :=
+  [0x42, 0x5a, 0x68, 0x39, 0x31, 0x41, 0x59, 0x26, 0x53, 0x59, 0x19, 0x93, 0x9b, 0x6b, 0x00, 0x00,
+   0x00, 0x01, 0x00, 0x20, 0x00, 0x20, 0x00, 0x21, 0x18, 0x46, 0x82, 0xee, 0x48, 0xa7, 0x0a, 0x12,
+   0x03, 0x32, 0x73, 0x6d, 0x60]
+
+theorem expandFile_aBz2 : Model.Expand.expandFile aBz2 = .ok [97] := by
   decide +kernel
 
 end LbzVerif.Lemmas.ExpandHello
